@@ -75,4 +75,9 @@ MUTANTS = [
         (P, "        # {syntax_names_id: {fmt_modifier: {enum_val: (text, align)}}}\n        self._cache = {}\n", "        self._cache = {}\n        self._tpl = {m: {} for m in self._FMT_MODIFIERS}\n        self._tpl[None] = self._tpl['full']\n")]},
     {"id": "c10-n-enum-cache-template-rebuilt", "expect": "silent", "edits": [(P, "            by_fmt_cache = self._cache[cache_key] = {\n                fmt_modifier: {}\n                for fmt_modifier in self._FMT_MODIFIERS\n            }\n            # None and 'full' format modifiers will refer to the same cached vals\n            by_fmt_cache[None] = by_fmt_cache['full']\n            self._cache[cache_key] = by_fmt_cache\n", "            by_fmt_cache = self._cache[cache_key] = {m: dict(v) for m, v in self._tpl.items()}\n            by_fmt_cache[None] = by_fmt_cache['full']\n"),
         (P, "        # {syntax_names_id: {fmt_modifier: {enum_val: (text, align)}}}\n        self._cache = {}\n", "        self._cache = {}\n        self._tpl = {m: {} for m in self._FMT_MODIFIERS}\n")]},
+    # R10n: products of a palette received as a parameter kept on the long-lived printer
+    {"id": "c10-indent-chunk-memo-on-printer", "expect": "fire", "edits": [(P, "            yield cp.text(\"{\")\n            prefix = cp.text(\" \" * (offset + 2))\n", "            yield cp.text(\"{\")\n            prefix = self.__dict__.setdefault('_ind', {}).get(offset)\n            if prefix is None:\n                prefix = self._ind[offset] = cp.text(\" \" * (offset + 2))\n")],
+     "note": "the chunk carries the escape prefix of the palette of the first call; no_color renderings get it later"},
+    {"id": "c10-n-indent-string-memo-on-printer", "expect": "silent", "edits": [(P, "            yield cp.text(\"{\")\n            prefix = cp.text(\" \" * (offset + 2))\n", "            yield cp.text(\"{\")\n            spaces = self.__dict__.setdefault('_ind', {}).get(offset)\n            if spaces is None:\n                spaces = self._ind[offset] = \" \" * (offset + 2)\n            prefix = cp.text(spaces)\n")],
+     "note": "only the palette-independent string is memoised"},
 ]
